@@ -112,8 +112,10 @@ class ConsumerError(Exception):
 class Producer:
     """the user's iterable: a generator with a `finally`, wrapped so that next()/close() are counted"""
 
-    def __init__(self, n, fails, delay=0.0, sse=True, hook=None):
+    def __init__(self, n, fails, delay=0.0, sse=True, hook=None, cleanup_raises=False):
         self.n, self.fails, self.delay, self.sse = n, fails, delay, sse
+        self.cleanup_raises = cleanup_raises
+        self.cleanup_exc = ProducerError("producer cleanup failed")
         self.produced = 0
         self.started = 0
         self.finally_runs = 0
@@ -138,8 +140,15 @@ class Producer:
                 time.sleep(self.delay)
             if self.fails:
                 raise self.exc
+        except GeneratorExit:
+            # closed before it was exhausted: a producer whose own cleanup fails (its error is the producer's error)
+            if self.cleanup_raises:
+                self.finally_runs += 1
+                raise self.cleanup_exc
+            raise
         finally:
-            self.finally_runs += 1
+            if not (self.cleanup_raises and self.finally_runs):
+                self.finally_runs += 1
 
     def __iter__(self):
         return self
@@ -599,7 +608,7 @@ def _watchdog_call(fn):
     return box.get("r", ("hang", None))
 
 
-def real_case(n, k, fails, mode, busy=False, encfail=None):
+def real_case(n, k, fails, mode, busy=False, encfail=None, cleanup_raises=False):
     """(canonical outcome, leaked?)"""
     import concurrent.futures
     import threading
@@ -608,7 +617,7 @@ def real_case(n, k, fails, mode, busy=False, encfail=None):
     import baize.wsgi.responses as wr
 
     delay = {0: 0.0, 1: 0.003, 2: 0.0, 3: 0.02}[mode]
-    prod = Producer(n, fails, delay=delay)
+    prod = Producer(n, fails, delay=delay, cleanup_raises=cleanup_raises)
     if encfail is not None:
         # the encfail-th event carries a character the response's charset cannot encode
         inner = prod.gen
@@ -655,7 +664,10 @@ def real_case(n, k, fails, mode, busy=False, encfail=None):
             if encfail is not None and isinstance(val, UnicodeEncodeError):
                 outcome = "fail"
             else:
-                outcome = ("end" if fails else "raise-own") if val is prod.exc else "crash %s" % type(val).__name__
+                if val is prod.cleanup_exc:
+                    outcome = "end"        # the error of the producer's own cleanup reaches the server: fine
+                else:
+                    outcome = ("end" if fails else "raise-own") if val is prod.exc else "crash %s" % type(val).__name__
         else:
             outcome = "end" if fails else "ret"
         if busy:
@@ -768,7 +780,17 @@ def asgi_case(kind, n, d, fails, aw, mode=0, encfail=None):
     async def main():
         disconnect = asyncio.Event()
 
+        # what the server still holds of the request when the application never read its body: in every other
+        # scenario the (empty, or two-piece) request body comes out of receive() before the disconnect does
+        pending = []
+        if (n + d + aw) % 2 == 1:
+            pending = [{"type": "http.request", "body": b"", "more_body": False}] if n % 2 == 0 else \
+                [{"type": "http.request", "body": b"x", "more_body": True},
+                 {"type": "http.request", "body": b"", "more_body": False}]
+
         async def receive():
+            if pending:
+                return pending.pop(0)
             await disconnect.wait()
             return {"type": "http.disconnect"}
 
@@ -915,6 +937,8 @@ def worker_exec(line):
         return out, not clean
     if op == "wsgi_real":
         return real_case(int(a[1]), int(a[2]), a[3] != "0", int(a[4]) if len(a) > 4 else 0)
+    if op == "wsgi_cleanupfail":
+        return real_case(int(a[1]), int(a[2]), False, int(a[3]) if len(a) > 3 else 0, cleanup_raises=True)
     if op == "wsgi_busy":
         return real_case(2, 1, False, 0, busy=True)
     if op == "wsgi_encfail":
@@ -1163,6 +1187,13 @@ def oracle_outcome(line, out, asgi=False):
             n, j = int(a[1]), int(a[2])
             return None if len(items) == min(n, j) else "%d events delivered before the failing one" % len(items)
         n, dd = int(a[1]), int(a[2])
+        # "returns no later than the producer's next step after the disconnect": the disconnect is handed over
+        # while body number dd is sent, so the producer may be at most one step further (plus, for an event
+        # stream, the one item in the relay's queue and the one in its hand)
+        aw_ = int(a[4]) if len(a) > 4 else 0     # aw = 0: nothing ever suspends, the watcher task cannot run at all
+        if aw_ >= 1 and dd < n and int(d["y"]) > dd + 3:
+            return ("the client was gone after %d body messages, yet the producer was stepped %d times (of %d): the "
+                    "disconnect was not acted upon" % (dd, int(d["y"]), n))
         if dd > n and len(items) != n:
             return "no disconnect, but only %d of %d chunks were delivered" % (len(items), n)
         if dd <= n and len(items) < min(dd, n):
@@ -1366,10 +1397,21 @@ def extra(rng, tier):
                 for fails in (0, 1):
                     for aw in (0, 1, 2, 3):
                         lines.append("%s %d %d %d %d" % (kind, n, d, fails, aw))
+    # long producers, early disconnect: the response must stop long before the producer is exhausted
+    for kind in ("asgi_stream", "asgi_sse"):
+        for n in (6, 9):
+            for d in (0, 1, 2):
+                for aw in (0, 1, 2, 3):
+                    lines.append("%s %d %d 0 %d" % (kind, n, d, aw))
     for n in range(1, top):
         for j in range(0, n + 1):
             for aw in (0, 1, 2):
                 lines.append("asgi_encfail %d %d %d" % (n, j, aw))
+    # WSGI event stream whose producer fails in its own cleanup when it is closed early
+    for n in range(2, top + 1):
+        for k in range(1, n):
+            for mode in (0, 1, 2):
+                lines.append("wsgi_cleanupfail %d %d %d" % (n, k, mode))
     for l in lines:
         out = impl(l)
         why = oracle(l, out)
